@@ -38,6 +38,10 @@ econf_err readConfigHistoryWithCallback(econf_file ***key_files,
   if (delim == NULL)
     return ECONF_ERROR;
 
+  /* neither a configuration name nor a project name has been given */
+  if (config_name == NULL)
+    return ECONF_ARGUMENT_IS_NULL_VALUE;
+
   if (config_name != NULL && strlen (config_name) != 0)
   {
     /* Reading main configuration file. */
